@@ -51,7 +51,7 @@ CFG = {
                  "C09_views_canonical", "C09_views_only_used", "C09_same_bytes", "C09_same_bytes_history", "C09_calc_preimage",
                  "C09_aux", "C09_stale_hash_not_detected", "C09_calc_noop_keeps_hash", "C09_wf_invariant",
                  "C09_slices_sound", "C09_same_bytes_history_bytes", "C09_same_bytes_additive", "C09_aux_history",
-                 "C09_aux_format_flag", "C09_aux_wire_reencode", "C09_tx_view_sound", "C09_judge_accepts_model", "C09_preimage_spec_with", "C09_stale_lang_refuted", "C09_calc_preimage_gen", "C09_entries_langs_model", "C09_same_bytes_entries", "C09_noop_calc_refuted"],
+                 "C09_aux_format_flag", "C09_aux_wire_reencode", "C09_tx_view_sound", "C09_judge_accepts_model", "C09_preimage_spec_with", "C09_stale_lang_refuted", "C09_calc_preimage_gen", "C09_entries_langs_model", "C09_same_bytes_entries", "C09_noop_calc_refuted", "C09_same_bytes_gen"],
     "allowed_axioms": [],
     "compare": _compare,
     "nontrivial": _nontrivial,
@@ -81,9 +81,8 @@ CFG = {
         "languages in use = declared languages of the script sources of the builder's Plutus witnesses (a reference script's language is what the caller declares)",
         "TransactionBuilder scenarios contain native scripts in every sub-builder that takes them; key / bootstrap witnesses appear only in the helper cases (get_witness_set never sets them)",
         "fees stay below 2^32 in builder scenarios (the 9-byte fee field is property C06)",
-        "fixed classes (no longer excluded from anything while the switches are false): C09-set-bytes-length, C09-empty-datums, C09-stale-input-language",
-        "known class C09-noop-calc-keeps-hash (known_noop_calc: the last calc was a no-op on a builder without script items holding a hash stored by an earlier calc): "
-        "the property is violated there (C09_noop_calc_refuted); the check prints KNOWN-FINDING and keeps exit 0; /repo frozen, candidate repair in notes/design/C09.md",
+        "fixed classes (no longer excluded from anything while the switches are false): C09-set-bytes-length, C09-empty-datums, C09-stale-input-language, C09-noop-calc-keeps-hash",
+        "in scope for the builder statements: the hash in the body was stored by calc_script_data_hash (or there is none); a hash installed with set_script_data_hash is na",
         "reachable C10 builder states have duplicate-free withdrawal keys (PointersProofs.wd_refine); native scripts are not in the C10 model (given per sub-builder)",
     ],
     "explanation": "Theorems quantify over all byte strings, identity classes, cost-model tables and operation histories; the correspondence run ties the "
